@@ -460,7 +460,7 @@ func (e *Enc) assertsAt(fr *frame, b *ssa.BasicBlock, idx int, in ssa.Instructio
 	}
 	line := e.P.srcLine(in.Pos())
 	for _, a := range e.C.AssertsAt {
-		if !strings.Contains(line, a.Anchor) || e.assertDone[a] {
+		if !strings.Contains(line, a.Anchor) || (e.assertDone[a] && a.Nth >= 0) {
 			continue
 		}
 		if a.Nth > 0 {
@@ -483,9 +483,25 @@ func (e *Enc) assertsAt(fr *frame, b *ssa.BasicBlock, idx int, in ssa.Instructio
 		e.assertDone[a] = true
 		env := e.newSpecEnv(fr, st)
 		env.block, env.idx = b, idx
-		f, err := env.formula(a.Clause.Expr)
-		if err != nil {
-			e.errors = append(e.errors, fmt.Sprintf("%s: assert_at: %v", a.Clause.Src, err))
+		var f string
+		var err error
+		if a.Snapshot == "" {
+			f, err = env.formula(a.Clause.Expr)
+			if err != nil {
+				e.errors = append(e.errors, fmt.Sprintf("%s: assert_at: %v", a.Clause.Src, err))
+				continue
+			}
+		}
+		if a.Snapshot != "" {
+			v, err := env.tr(a.Clause.Expr)
+			if err != nil {
+				e.errors = append(e.errors, fmt.Sprintf("%s: snapshot_at: %v", a.Clause.Src, err))
+				continue
+			}
+			if e.snaps == nil {
+				e.snaps = map[string]SVal{}
+			}
+			e.snaps[a.Snapshot] = v
 			continue
 		}
 		if a.Assume {
@@ -1032,8 +1048,14 @@ func (e *Enc) arith(st *bstate, x ssa.Value, r string, t types.Type) Val {
 		return Val{T: r, Typ: t}
 	}
 	if e.opt("wraps") {
-		bits, signed, _ := intBits(t)
-		return Val{T: wrapTerm(r, bits, signed), Typ: t}
+		// "option wraps": exact two's-complement wrap-around for every arithmetic result of the
+		// function; "option wraps=<text>": only for operations on source lines containing <text>
+		// (underscores in <text> stand for spaces)
+		only := strings.ReplaceAll(e.C.Options["wraps"], "_", " ")
+		if in, ok := x.(ssa.Instruction); only == "" || (ok && strings.Contains(e.P.srcLine(in.Pos()), only)) {
+			bits, signed, _ := intBits(t)
+			return Val{T: wrapTerm(r, bits, signed), Typ: t}
+		}
 	}
 	v := e.fresh("ar."+x.Name(), "Int")
 	e.assert(sAnd(app("<=", lo, v), app("<=", v, hi)))
@@ -1357,7 +1379,27 @@ func (e *Enc) encodeConvert(st *bstate, x *ssa.Convert) {
 		e.setVal(x, Val{T: r})
 	case fs == ts:
 		e.setVal(x, Val{T: v.T, Loc: v.Loc})
-	case fs == "Real" && toInt, fromInt && ts == "Real":
+	case fs == "Real" && toInt:
+		// int64(f): the uninterpreted function realTrunc (declared in the extern contracts, where
+		// the library functions that produce the float say what its truncation is)
+		if sf := e.P.reg.Specs["realTrunc"]; sf != nil && sf.Body == nil {
+			if sig, err := e.specShell(sf); err == nil {
+				sig.state = 2
+				r := e.freshVal(st, to, "fconv")
+				lo, hi, ok := intRange(to)
+				tr := app(sig.smt, v.T)
+				if ok {
+					e.assert(sImp(sAnd(app("<=", lo, tr), app("<=", tr, hi)), sEq(r.T, tr)))
+				} else {
+					e.assert(sEq(r.T, tr))
+				}
+				e.setVal(x, r)
+				break
+			}
+		}
+		e.note("float/int conversion (uninterpreted)")
+		e.setVal(x, e.freshVal(st, to, "fconv"))
+	case fromInt && ts == "Real":
 		e.note("float/int conversion (uninterpreted)")
 		e.setVal(x, e.freshVal(st, to, "fconv"))
 	default:
